@@ -53,6 +53,7 @@ def gen_history(rng, nsess, nstmts, defaults, big):
     steps = []
     next_id = [1]
     views = [0]
+    self_inserts = [0]
 
     def add(s, sql, expect, probe=None):
         steps.append({"s": s, "sql": sql, "expect": expect, "probe": probe})
@@ -139,7 +140,8 @@ def gen_history(rng, nsess, nstmts, defaults, big):
                 add(s, f"INSERT INTO {qual(sc, name)} SELECT CAST(v.x AS {LAYOUTS[lay][0][1]}){extra} FROM (VALUES {', '.join(parts)}) v(x)", "error")
             elif kind < 0.86:
                 # INSERT .. SELECT from the target itself: snapshot rule
-                off = 1_000_000 * (1 + len([x for x in steps if "1000000" in x["sql"]]))
+                self_inserts[0] += 1
+                off = 1_000_000 * self_inserts[0]
                 sel = ", ".join((f"a + {off}" if c == "a" else c) for c, t in LAYOUTS[lay])
                 if len(rows) > 4000:
                     continue
@@ -208,6 +210,12 @@ def gen_history(rng, nsess, nstmts, defaults, big):
             m.settings["partitions"] = "1"
             add(s, "INSERT INTO big SELECT x FROM generate_series(1, 40000) g(x)", "ok", ("count", 40000))
             add(s, "SELECT count(*), sum(a), min(a), max(a) FROM big", "ok", ("row", [40000, 40000 * 40001 // 2, 1, 40000]))
+            # the statement must read the table as of its start even when its own appends are flushed while it runs
+            p = rng.choice(["1", "2", "8"])
+            add(s, f"SET partitions TO {p}", "ok")
+            m.settings["partitions"] = p
+            add(s, "INSERT INTO big SELECT a + 100000 FROM big", "ok", ("count", 40000))
+            add(s, "SELECT count(*), sum(a), min(a), max(a) FROM big", "ok", ("row", [80000, 40000 * 40001 + 40000 * 100000, 1, 140000]))
             m.schemas["temp"]["big"] = ("table", "L1", None)
     for si, m in enumerate(models):
         add(si, None, None, ("observe", json.loads(json.dumps(snapshot(m)))))
@@ -261,17 +269,15 @@ def run(chk):
     knowncases.run_known_cases(chk)
     nhist = 400 if thorough else 50
     # defaults: read from a fresh session
-    res, _ = vrun.run_cases([{"id": "d", "exec": {"kind": "det", "partitions": 4}, "steps": [{"sql": f"SHOW {k}"} for k in SETTINGS]}])
-    defaults = {}
-    for k, st in zip(SETTINGS, res["d"]["steps"]):
-        defaults[k] = str(st["rows"][0][0]).lower() if st["outcome"] == "rows" else None
+    # defaults depend on the executor (partitions = worker threads): each history starts by reading them
+    defaults = {k: "<default>" for k in SETTINGS}
     cases = []
     meta = {}
     for hi in range(nhist):
         nsess = rng.choice([1, 1, 2, 3])
         hist = gen_history(rng, nsess, rng.choice([30, 60, 150]), defaults, big=(hi % 10 == 0))
-        steps = []
-        spec = []
+        steps = [{"s": 0, "sql": f"SHOW {k}"} for k in SETTINGS]
+        spec = [("default", k, None, 0) for k in SETTINGS]
         for h in hist:
             if h["sql"] is None:
                 obs = observe_steps(h["s"], h["probe"][1])
@@ -281,7 +287,11 @@ def run(chk):
             else:
                 steps.append({"s": h["s"], "sql": h["sql"]})
                 spec.append(("stmt", h["expect"], h["probe"], h["s"]))
-        ex = {"kind": "det", "policy": "random", "seed": rng.randint(0, 1 << 30), "yield_p": rng.choice([0, 0.05, 0.3]), "partitions": 4, "step_budget": 30_000_000}
+        if hi % 5 == 4:
+            ex = {"kind": "native", "threads": rng.choice([2, 4, 8]), "partitions": 4, "timeout_s": 300, "pause_p": rng.choice([0, 0.01])}
+        else:
+            ex = {"kind": "det", "policy": rng.choice(["random", "random", "lifo", "fifo", "pct"]), "seed": rng.randint(0, 1 << 30), "yield_p": rng.choice([0, 0.05, 0.3]), "partitions": 4, "step_budget": 30_000_000}
+        chk.count("executor " + ex["kind"] + "/" + ex.get("policy", "threads"))
         c = {"id": f"c14-{hi}", "exec": ex, "sessions": nsess, "steps": steps, "max_rows": 200000}
         cases.append(c)
         meta[c["id"]] = spec
@@ -296,6 +306,7 @@ def run(chk):
             chk.violation(outcome_signature(res), f"process died: {json.dumps(res['died'])[:300]}", {"cases": [c]})
             continue
         broken = False
+        dflt = {}
         for j, (st, sp) in enumerate(zip(res["steps"], spec)):
             sql = c["steps"][j]["sql"]
             chk.evaluated()
@@ -304,12 +315,22 @@ def run(chk):
             if st["outcome"] == "panic":
                 chk.violation(outcome_signature(st), f"step {j}: panic {st.get('panic_msg')} @ {st.get('panic_loc')}\n{sql[:300]}", {"cases": [c], "step": j})
                 break
+            if st["outcome"] == "timeout":
+                chk.inconc("statement hit the wall-clock watchdog on the native executor")
+                broken = True
+                break
             if st["outcome"] in ("deadlock", "diverged"):
                 chk.violation({"kind": "outcome", "class": st["outcome"], "deadlock_kind": st.get("deadlock_kind"), "parked_ops": st.get("parked_ops"), "stmt": sql.split()[0]},
                               f"step {j}: {st['outcome']} parked at {st.get('parked_ops')}\n{sql[:300]}", {"cases": [c], "step": j})
                 broken = True
                 break
             ok = st["outcome"] in ("rows", "empty")
+            if sp[0] == "default":
+                if not ok:
+                    chk.violation({"kind": "observation-failed", "what": "default"}, f"step {j}: {sql} failed", {"cases": [c], "step": j})
+                    break
+                dflt[sp[1]] = str(st["rows"][0][0]).lower()
+                continue
             if sp[0] == "stmt":
                 _, expect, probe, sess = sp
                 if expect == "ok" and not ok:
@@ -324,8 +345,12 @@ def run(chk):
                 if ok and probe:
                     if probe[0] == "count" and st.get("rows") != [[probe[1]]]:
                         chk.violation({"kind": "wrong-dml-count", "stmt": " ".join(sql.split()[:2])}, f"step {j}: {sql[:200]} reported {st.get('rows')} expected {probe[1]}", {"cases": [c], "step": j})
+                        broken = True
+                        break    # everything after the first divergence would only restate it
                     if probe[0] == "row" and [decode(v) for v in st["rows"][0]] != probe[1]:
                         chk.violation({"kind": "wrong-contents", "what": "big-append"}, f"step {j}: {sql[:200]} -> {st.get('rows')} expected {probe[1]}", {"cases": [c], "step": j})
+                        broken = True
+                        break
                 continue
             _, obs, snap, sess = sp
             what = f"step {j} (session {sess}) observation {obs[0]}"
@@ -354,6 +379,7 @@ def run(chk):
                     dup = len(ids_g) - len(set(ids_g))
                     chk.violation({"kind": "wrong-contents", "what": "rows", "dups": dup > 0},
                                   f"{what}: table {obs[1]}.{obs[2]}: {why}; {len(rows)} rows vs model {len(want)}; duplicated ids {dup}; missing {sorted(set(ids_w) - set(ids_g))[:5]} extra {sorted(set(ids_g) - set(ids_w))[:5]}", {"cases": [c], "step": j})
+                    break
             elif obs[0] == "describe":
                 want = [(cn, TYPE_NAMES[t]) for cn, t in LAYOUTS[obs[1]]]
                 if rows != want:
@@ -364,6 +390,8 @@ def run(chk):
                     chk.violation({"kind": "wrong-contents", "what": "view"}, f"{what}: view {obs[2]} returns {sorted(r[0] for r in rows)[:8]}.. model {vrow[2][:8]}..", {"cases": [c], "step": j})
             elif obs[0] == "setting":
                 want = snap["settings"][obs[1]]
+                if want == "<default>":
+                    want = dflt.get(obs[1])
                 got = str(rows[0][0]).lower() if rows else None
                 if got != want:
                     chk.violation({"kind": "setting-differs", "key": obs[1]}, f"{what}: SHOW {obs[1]} = {got}, model = {want}", {"cases": [c], "step": j})
